@@ -265,6 +265,18 @@ where
             }
             let mut o = Outcome::pass(json!({"valid": valid, "len": ct.v.len()}));
             o.extra += 2;
+            // the largest length class of the model stands for "long": honest round trips around one and three MiB too
+            if n == 65536 {
+                for big in [(1usize << 20) - 3, 1 << 20, (1 << 20) + 1, 3 << 20] {
+                    let m = msg_of_len(conc, "Mbig", big);
+                    let c = sk.public_key().sign_crypt(scheme_of(gets(v, "scheme")), &m);
+                    let back: Option<Vec<u8>> = c.decrypt(&sk).into();
+                    if !bool::from(c.is_valid()) || back.as_deref() != Some(&m[..]) {
+                        return Outcome::fail(json!({"n": big}), format!("a message of {big} bytes does not survive seal / validate / open"));
+                    }
+                    o.extra += 1;
+                }
+            }
             o
         }
         "IsValid" => {
